@@ -213,3 +213,20 @@ for _prop in ('C17', 'C05'):
              ensures=[('post', 'False')],
              raises={'nfc.llcp.err:ConnectRefused': ['self.peer is None', 'self.state.value == 1',
                                                      'exc.reason == old(self.recv_queue[0].reason)']})
+
+# closing the last socket of a named service frees the NAME as well: afterwards name resolution and
+# connect-by-name report absence (they must not reach whichever socket is bound at that address next), and the
+# name can be bound again
+contract(L + 'LogicalLinkController.close', 'C17',
+         dict(self=llc(snl=DictOf({b'urn:nfc:sn:sdp': 1, b'urn:nfc:sn:x': Int(16, 31), b'urn:nfc:sn:y': Int(16, 31)}),
+                       sap=LazyList([Opt(Obj(L + 'ServiceAccessPoint', _partial=False, addr=i, llc=Ref('self'),
+                                             sock_list=Fixed([Ref('socket')], 'deque'),
+                                             send_list=Fixed([], 'deque'))) for i in range(64)])),
+              socket=tco('LogicalDataLink', addr=Int(16, 31))),
+         name='C17/close.named-service',
+         requires=['self.sap[socket.addr] is not None', 'self.snl[b"urn:nfc:sn:x"] == socket.addr',
+                   'self.snl[b"urn:nfc:sn:y"] != socket.addr'],
+         ensures=[('post.name-freed', 'self.snl.get(b"urn:nfc:sn:x") is None'),
+                  ('post.name-frame', 'self.snl.get(b"urn:nfc:sn:y") == old(self.snl[b"urn:nfc:sn:y"]) and '
+                                      'self.snl.get(b"urn:nfc:sn:sdp") == 1')],
+         raises={})
